@@ -617,6 +617,10 @@ B_CERT_CASES = ["wrong-name", "expired", "not-yet", "self-signed", "untrusted-ca
 # ... and a client with verify_mode CERT_OPTIONAL validates exactly like one with CERT_REQUIRED (for a TLS client the two
 # mean the same: the server always presents a certificate)
 B_CERT_OPTIONAL_CASES = [c + "+client-cert-optional" for c in B_CERT_CASES] + ["control-good+client-cert-optional"]
+# the very same certificate, trust anchors and name, first while it is valid (must complete), then with the clock beyond
+# notAfter / before notBefore (tls.utcnow, the engine's own clock function, is moved): validity is a property of the
+# moment of each handshake, not of the certificate
+B_CLOCK_CASES = ["good-then-clock-after-not-after", "good-then-clock-before-not-before"]
 B_SIG_CASES = ["cv-wrong-key", "cv-wrong-context", "cv-wrong-transcript", "empty-certificate-list-no-certificate-verify",
                # a client that switched chain / name validation off (verify_mode CERT_NONE, e.g. because it pins the
                # certificate itself) is still owed the proof of possession of the presented certificate's key
@@ -653,6 +657,24 @@ def b_run(case: str, kind: str, res, batch):
         res.count("b_client_cert_optional_cases")
     if case in B_CERT_CASES:
         cfg = dict(cfg, flavour=case)
+    if case in B_CLOCK_CASES:
+        import datetime
+
+        cl0, sv0 = build_pair(cfg, store)
+        pump(cl0, sv0)
+        if not cl0.complete():
+            res.inconclusive.append("b %s/%s: the handshake with the valid certificate did not complete" % (case, kind))
+            return None
+        shift = datetime.timedelta(days=36500 if "after" in case else -36500)
+        real = tls.utcnow
+        tls.utcnow = lambda: real() + shift
+        try:
+            cl, sv = build_pair(cfg, store)
+            pump(cl, sv)
+        finally:
+            tls.utcnow = real
+        res.count("b_clock_cases")
+        return cl, sv, "must-fail"
     cl, sv = build_pair(cfg, store, resume=resume)
     suite_name = None
     if resume:
@@ -779,7 +801,7 @@ def _claim_psk_without_secret(ctx, cipher_suite, input_buf, initial_buf, handsha
 
 def b_negauth_tls(batch, res):
     cases = batch.get("cases") or (
-        B_CERT_CASES + B_CERT_OPTIONAL_CASES[:-1] + B_SIG_CASES + B_PSK_CASES
+        B_CERT_CASES + B_CERT_OPTIONAL_CASES[:-1] + B_CLOCK_CASES + B_SIG_CASES + B_PSK_CASES
         + ["control-good", "control-good+client-cert-none", "control-good+client-cert-optional", "control-proxy-identity", "control-psk", "control-psk-rebind-same-secret", "control-psk-unknown-ticket"]
     )
     kinds = batch.get("kinds") or KEY_TYPES
